@@ -165,6 +165,8 @@ extern "C" int monitor()
   {
     Monitor m; g_monitor = &m; g_sets = 0; g_waitsOk = 0; g_holding = 0;
     unsigned timed = vf_pick(2);
+    unsigned pre = vf_pick(3);                             // set() calls issued while nobody waits: they stay pending
+    for(unsigned i = 0; i < pre; ++i) { Atomic::increment(g_sets); m.set(); }
     Thread w, s;
     w.start(monWaiter, (void*)(usize)timed); s.start(monSetter, 0);
     uint rw = w.join(); s.join();
